@@ -9,7 +9,7 @@ ID = "C12"
 LEVEL = "model_checking"
 TECHNIQUE = "breadth-first explicit-state search over write / write-same / sync histories through the real facade against a simulated conformant block target, SG_IO and iSCSI in lock-step, disk state de-duplicated, every state read back in full and compared with a dict reference model"
 RULE = ("events: write10/12/16 and writesame10/16 (incl. unmap, anchor, ndob) over LBAs {0,1,2^32-2,2^32-1 | 2^32, 2^40+3, 2^63+5, 2^64-2, 2^64-1 (16-byte forms)} x "
-        "transfer lengths {0,1,2} x payloads {A,B} plus one all-flags variant per command and one write per payload container kind (bytes, writable / read-only memoryview window at a non-zero offset of a larger buffer), WRITE SAME with block counts 0xFFFF / 0x10000 / 0x10003 / 0xFFFFFFFF, synchronizecache10/16; BFS to depth 2 (quick) / 3 "
+        "transfer lengths {0,1,2} x payloads {A,B} plus one all-flags variant per command and one write per payload container kind (bytes, writable / read-only memoryview window at a non-zero offset of a larger buffer, anonymous mmap fresh / filled through write() with its position at the end), WRITE SAME with block counts 0xFFFF / 0x10000 / 0x10003 / 0xFFFFFFFF, synchronizecache10/16; BFS to depth 2 (quick) / 3 "
         "(thorough) de-duplicating on disk content, per block size in {512, 4096}; each history is replayed from scratch through the facade on a "
         "fresh SG_IO device and a fresh iSCSI device. In every state every read form (read10/12/16, lengths 1..2, one all-flags variant) over every "
         "touched LBA and its neighbours, READ CAPACITY(10/16) and INQUIRY are compared with the model and across transports. two threads sharing one facade (a refused WRITE(10) and a READ(10)): all schedules with at most 1 preemption at every source line of the library and at most 2 at the lines of the device and facade modules, each thread sees its own command's outcome. Block targets reporting a device type the facade does not list (0Eh, 14h) with the SBC table assigned to the device by the caller before / after / before and after attaching, 9 histories x both block sizes x both transports, read back in full. write / re-point the device path (a link) to another disk / write / read / INQUIRY through init_device and SCSIDevice. states = distinct "
@@ -41,7 +41,7 @@ def events():
         ev.append((cmd, 1, 1, "B", (("dpo", 1), ("fua", 1), ("wrprotect", 5), ("group", 0x15))))
         # the payload handed over in other containers: bytes, a writable memoryview window into a larger bytearray, a read-only
         # memoryview window into a larger bytes object (zero-copy chunking of an image), each window starting at a non-zero offset
-        for kind in ("bytes", "mvw", "mvr"):
+        for kind in ("bytes", "mvw", "mvr", "mmap", "mmapend"):
             ev.append((cmd, 2, 2, "B", (("_buf", kind),)))
     for cmd, lbas in (("writesame10", l32), ("writesame16", l64)):
         for lba in lbas:
@@ -50,7 +50,7 @@ def events():
                     continue
                 ev.append((cmd, lba, nb, "A", ()))
         ev.append((cmd, 0, 2, "B", (("unmap", 1), ("anchor", 1), ("wrprotect", 3), ("group", 0x0A))))
-        for kind in ("bytes", "mvw", "mvr"):
+        for kind in ("bytes", "mvw", "mvr", "mmapend"):
             ev.append((cmd, 3, 1, "B", (("_buf", kind),)))
     ev.append(("writesame16", 1 << 33, 0x10000, "B", ()))
     ev.append(("writesame16", (1 << 33) + 5, 0x10003, "A", (("unmap", 1),)))
@@ -115,6 +115,18 @@ def apply_model(model, ev, bs):
 
 
 def container(kind, payload):
+    if kind in ("mmap", "mmapend"):
+        # an anonymous memory map: a byte buffer that is ALSO a file-like object with a position - fresh (position 0), or filled
+        # through its write() so that the position stands at the end
+        import mmap
+        if not payload:
+            return bytearray()
+        mm = mmap.mmap(-1, len(payload))
+        if kind == "mmapend":
+            mm.write(bytes(payload))
+        else:
+            mm[:] = bytes(payload)
+        return mm
     if kind == "bytes":
         return bytes(payload)
     if kind == "mvw":
